@@ -22,3 +22,4 @@ char* strstr(const char* h, const char* n) {
   }
   return (char*)0;
 }
+char* strchr(const char* s, int c) { size_t i = 0; while (1) { if (s[i] == (char)c) return (char*)(s + i); if (s[i] == 0) return (char*)0; i++; } }
